@@ -243,7 +243,7 @@ def ev(t, env):
 
 VALS = [dict(a=7, b=3, c=2, d=5), dict(a=2, b=5, c=3, d=1), dict(a=9, b=4, c=6, d=2), dict(a=1, b=8, c=2, d=3), dict(a=6, b=6, c=3, d=2),
         dict(a=5, b=2, c=9, d=4), dict(a=0, b=3, c=1, d=7), dict(a=12, b=5, c=0, d=1)]
-COMPOUND = {"+=": "+", "-=": "-", "*=": "*", "/=": "/", "%=": "%"}
+COMPOUND = {"+=": "+", "-=": "-", "*=": "*", "/=": "/"}      # the assignment_op production has no %=
 
 
 def value_leg(run):
